@@ -1,6 +1,7 @@
 """C04 - concurrent requests behave as if processed one at a time."""
 CONC_TAGS = ["verif_conc", "shim_udp", "shim_http", "shim_memory", "shim_memsched", "shim_redis", "shim_redisconc", "shim_timecache"]
-CONC_REASONS = {"41": "memory store: no sequential ordering of the lock-delimited steps (consistent with program order) explains the step results and the final state",
+CONC_REASONS = {"43": "memory store: the lock operations of the real store are not those of the lock-machine model (Model/Locks.v): inadmissible sequence, a critical section on another shard or missing, or a write step without the write lock",
+                "41": "memory store: no sequential ordering of the lock-delimited steps (consistent with program order) explains the step results and the final state",
                 "42": "redis store: the membership reached once all operations finished is not that of any sequential ordering",
                 "54": "an expiry pass running concurrently with other operations left a state no ordering of its per-swarm steps explains (a fresh member removed or a stale one kept)",
                 "71": "exported totals differ from a recount at quiescence", "72": "memory store: a shard's counters differ from a recount at an instant a reader can observe",
